@@ -1,5 +1,5 @@
 """All sidecar contracts."""
-from . import ast_utils, conformance, defaults_utils, docstring_parsers, emit, emitter_utils, parse, parser_utils, pure_utils
+from . import ast_utils, conformance, defaults_utils, docstring_parsers, docstring_utils, emit, emitter_utils, parse, parser_utils, pure_utils
 
 ALL_CONTRACTS = (pure_utils.CONTRACTS + defaults_utils.CONTRACTS + docstring_parsers.CONTRACTS + ast_utils.CONTRACTS
-                 + conformance.CONTRACTS + parser_utils.CONTRACTS + emitter_utils.CONTRACTS + emit.CONTRACTS + parse.CONTRACTS)
+                 + conformance.CONTRACTS + parser_utils.CONTRACTS + emitter_utils.CONTRACTS + emit.CONTRACTS + parse.CONTRACTS + docstring_utils.CONTRACTS)
